@@ -187,6 +187,23 @@ def r11_3(run):
                    message='%s: %s; Integer/Port/Boolean/Float parsers then raise ValueError (int(\'DEFAULT\')) and abort %s' % (
                        name, why, 'the whole bootstrap' if name == '_do_setup' else 'the change event'))
     run.floor('R11.3', 'parser.parse call sites in bootstrap/change handler', sites, 4)
+    # type flow: parsers take the raw string Tor sent; a value already in list form (the [] placeholder for an unset list
+    # option, or a looked-up default list) must not reach one (CommaList.parse would call [].split)
+    for name in ('_do_setup', '_conf_changed'):
+        u = CU(run, name)
+        g = cfg_of(u)
+        for c in calls_in(u):
+            if callee_attr(c) != 'parse' or not c.args or not isinstance(c.args[0], ast.Name):
+                continue
+            for cn in g.nodes_containing(c):
+                for dnode in reaching_defs(g, cn, c.args[0].id):
+                    v = def_value(dnode, c.args[0].id)
+                    listy = isinstance(v, ast.List) or (isinstance(v, ast.Call) and callee_attr(v) == 'get' and len(v.args) == 2 and isinstance(v.args[1], ast.List))
+                    if listy:
+                        run.ob('R11.3', u, c, 'a value already in list form does not reach a type parser', False, slot='list-to-parser@%s' % name,
+                               message='%s: %s can hold %s (a list) when it is handed to %s: comma-list parsers call .split on it and the handler '
+                                       'aborts, leaving the view stale' % (name, c.args[0].id, src(v)[:40], src(c.func)[:40]))
+            run.ob('R11.3', u, c, 'parser argument examined for list-typed definitions', True)
     ga = CU(run, '__getattr__')
     ok = any(isinstance(n, ast.Compare) and dotted(n.comparators[0]) == 'DEFAULT_VALUE' for n in walk_unit(ga)) and \
         any(isinstance(n, ast.Call) and callee_attr(n) == 'get' and '_defaults' in src(n) for n in walk_unit(ga))
@@ -226,6 +243,11 @@ def r11_4(run):
             run.ob('R11.4', pm, pm.node, '%s.parse returns a list on every path' % cname, ok, slot='list-parse:%s' % cname, message='%s.parse returns %s' % (cname, [src(r.value)[:30] for r in rets]))
 
 
+def names_value(u, name):
+    d = single_def(local_defs(u), name)
+    return d[1] if d is not None and d[0] == 'expr' else None
+
+
 def r11_5(run):
     """siblings: both places that turn Tor's answer into a scalar value consult the option default
     when Tor reports the option unset, and parse it like any other value"""
@@ -256,6 +278,38 @@ def r11_5(run):
         run.ob('R11.5', u, u.node, '%s: an unset scalar option takes the (parsed) default Tor reported' % name, found, slot='default-lookup:%s' % name,
                message='%s no longer looks the option default up when Tor reports the option unset: the value degrades to the '
                        'raw marker / raw default string and changes type' % name)
+    # port lists: when config/defaults has no entry for an unset / auto port option, its __FooPort default is asked for.
+    # The fallback must be chosen per key (KeyError on defaults[key] / a membership test), not by whether the map is empty.
+    ds = CU(run, '_do_setup')
+    gds = cfg_of(ds)
+    fb = []
+    for c in calls_in(ds):
+        if callee_attr(c) in ('get_conf_single', 'get_conf') and c.args:
+            a = c.args[0]
+            v = a
+            if isinstance(a, ast.Name):
+                dv = names_value(ds, a.id)
+                v = dv if dv is not None else a
+            sh = shape(v)
+            if sh and isinstance(sh[0], str) and sh[0].startswith('__'):
+                fb.append(c)
+    run.floor('R11.5', '__FooPort fallback queries in _do_setup', len(fb), 1)
+    for c in fb:
+        per_key = False
+        for t in [x for x in walk_unit(ds) if isinstance(x, ast.Try)]:
+            in_handler = any(c is y for h in t.handlers for b in h.body for y in ast.walk(b)
+                             if h.type is None or (dotted(h.type) or '').split('.')[-1] in ('KeyError', 'LookupError', 'Exception'))
+            subs = any(isinstance(y, ast.Subscript) and 'defaults' in (dotted(y.value) or '') for b in t.body for y in ast.walk(b))
+            if in_handler and subs:
+                per_key = True
+        for cn in gds.nodes_containing(c):
+            for t, lab in gds.guarded_by(cn, lambda t: isinstance(t, ast.Compare) and len(t.ops) == 1 and isinstance(t.ops[0], (ast.In, ast.NotIn))
+                                         and 'defaults' in (dotted(t.comparators[0]) or '')):
+                if (lab == 'T') == isinstance(t.ast.ops[0], ast.NotIn):
+                    per_key = True
+        run.ob('R11.5', ds, c, 'the __FooPort default is consulted whenever config/defaults lacks that port', per_key, slot='port-default-fallback',
+               message='_do_setup asks for the __FooPort default only when the whole defaults map is empty / on some other condition: with a Tor that reports '
+                       'defaults for other options but not this port, an unset or auto port list reads [] instead of its default')
     # list_parsers: writers and the change-event reader agree on the key form (raw vs lower-cased)
     tc = TC(run)
     forms = {}
@@ -313,6 +367,8 @@ RULES = [
 from ..selftest import M  # noqa: E402
 F = 'txtorcon/torconfig.py'
 MUTANTS = [
+    M('port-default-by-map-truthiness', F, "                    try:\n                        initial = defaults[name[:-5]]\n                    except KeyError:\n", "                    if defaults:\n                        initial = defaults.get(name[:-5], [])\n                    else:\n", ['R11.5']),
+    M('default-list-parsed', F, "                    v = self._defaults.get(real_name, [])\n                elif real_name in self.parsers:", "                    v = self._defaults.get(real_name, [])\n                if real_name in self.parsers:", ['R11.3']),
     M('conf-changed-late-bound-callback', F, "                v = _ListWrapper(\n                    v, functools.partial(self.mark_unsaved, real_name))\n            else:\n                if v == DEFAULT_VALUE:", "                v = _ListWrapper(v, lambda: self.mark_unsaved(real_name))\n            else:\n                if v == DEFAULT_VALUE:", ['R11.8']),
     M('post-bootstrap-not-awaited', F, "        cfg = TorConfig(control=proto)\n        yield cfg.post_bootstrap", "        cfg = TorConfig(control=proto)\n        cfg.post_bootstrap", ['R11.6']),
     M('conf-changed-unwrapped', F, "                v = _ListWrapper(\n                    v, functools.partial(self.mark_unsaved, real_name))\n            else:\n                if v == DEFAULT_VALUE:", "                pass\n            else:\n                if v == DEFAULT_VALUE:", ['R11.1']),
@@ -328,6 +384,7 @@ MUTANTS = [
     M('commalist-returns-str', F, "class CommaList(TorConfigType):\n    def parse(self, s):\n        return [x.strip() for x in s.split(',')]", "class CommaList(TorConfigType):\n    def parse(self, s):\n        return s", ['R11.4']),
 ]
 TWINS = [
+    M('port-default-by-membership', F, "                    try:\n                        initial = defaults[name[:-5]]\n                    except KeyError:\n", "                    if name[:-5] in defaults:\n                        initial = defaults[name[:-5]]\n                    else:\n"),
     M('conf-changed-default-bound-lambda', F, "                v = _ListWrapper(\n                    v, functools.partial(self.mark_unsaved, real_name))\n            else:\n                if v == DEFAULT_VALUE:", "                v = _ListWrapper(v, lambda n=real_name: self.mark_unsaved(n))\n            else:\n                if v == DEFAULT_VALUE:"),
     M('conf-changed-not-in', F, "            if real_name in self.list_parsers:\n                # same shape as _do_setup produces: a tracked list,\n                # whether Tor reports zero, one or many values\n                if v == DEFAULT_VALUE:\n                    v = self._defaults.get(real_name, [])\n                elif real_name in self.parsers:\n                    v = self.parsers[real_name].parse(v)\n                if not isinstance(v, list):\n                    v = [v]\n                v = _ListWrapper(\n                    v, functools.partial(self.mark_unsaved, real_name))\n            else:\n                if v == DEFAULT_VALUE:\n                    v = self._defaults.get(real_name, DEFAULT_VALUE)\n                if real_name in self.parsers and v != DEFAULT_VALUE:\n                    v = self.parsers[real_name].parse(v)\n",
       "            if real_name not in self.list_parsers:\n                if v == DEFAULT_VALUE:\n                    v = self._defaults.get(real_name, DEFAULT_VALUE)\n                if real_name in self.parsers and v != DEFAULT_VALUE:\n                    v = self.parsers[real_name].parse(v)\n            else:\n                if v == DEFAULT_VALUE:\n                    v = self._defaults.get(real_name, [])\n                elif real_name in self.parsers:\n                    v = self.parsers[real_name].parse(v)\n                if not isinstance(v, list):\n                    v = [v]\n                v = _ListWrapper(\n                    v, functools.partial(self.mark_unsaved, real_name))\n"),
